@@ -37,8 +37,8 @@ TARGETS["drv_aux"] = ("drv_aux.cpp", [], [])
 TARGETS["drv_krylov"] = ("drv_krylov.cpp", [], [])
 TARGETS["drv_mt"] = ("drv_mt.cpp", ["-pthread"], ["-pthread"])
 # sanitizer variants (thorough tiers only)
-TARGETS["drv_ir_sym_d_asan"] = ("drv_ir_sym.cpp", ["-DVH_ONLY=2", "-fsanitize=address,undefined", "-fno-omit-frame-pointer", "-g"], ["-fsanitize=address,undefined"])
-TARGETS["drv_ir_gen_d_asan"] = ("drv_ir_gen.cpp", ["-DVH_ONLY=2", "-fsanitize=address,undefined", "-fno-omit-frame-pointer", "-g"], ["-fsanitize=address,undefined"])
+TARGETS["drv_ir_sym_d_asan"] = ("drv_ir_sym.cpp", ["-DVH_ONLY=2", "-fsanitize=address,undefined", "-fno-sanitize-recover=undefined", "-fno-omit-frame-pointer", "-g"], ["-fsanitize=address,undefined"])
+TARGETS["drv_ir_gen_d_asan"] = ("drv_ir_gen.cpp", ["-DVH_ONLY=2", "-fsanitize=address,undefined", "-fno-sanitize-recover=undefined", "-fno-omit-frame-pointer", "-g"], ["-fsanitize=address,undefined"])
 TARGETS["drv_mt_tsan"] = ("drv_mt.cpp", ["-pthread", "-fsanitize=thread", "-g"], ["-pthread", "-fsanitize=thread"])
 
 
